@@ -288,10 +288,63 @@ def judge(ctx, case, r):
 # cache half
 
 def eval_result(ast, root):
+    """the node objects themselves (kept alive by the caller, so that identities can be compared)"""
     try:
-        return ("ok", [id(n) for n in ast.evaluate(root, Namespaces({"p": "urn:p"}))])
+        return ("ok", list(ast.evaluate(root, Namespaces({"p": "urn:p"}))))
     except Exception as e:  # noqa: BLE001
         return ("exc", type(e).__name__)
+
+
+def same_results(a, b):
+    if a[0] != b[0]:
+        return False
+    if a[0] == "exc":
+        return a[1] == b[1]
+    return len(a[1]) == len(b[1]) and all(x is y for x, y in zip(a[1], b[1]))
+
+
+def ast_nodes(x):
+    """all AST node objects below (and including) x"""
+    import _delb.xpath.ast as A
+    out, todo = [], [x]
+    while todo:
+        n = todo.pop()
+        if isinstance(n, A.Node):
+            out.append(n)
+            for slot in getattr(type(n), "__slots__", ()):
+                v = getattr(n, slot, None)
+                todo.extend(v if isinstance(v, (tuple, list)) else [v])
+    return out
+
+
+def cached_property_state(ctx, ast_obj, case):
+    """every value a functools.cached_property has stored on a node of the (shared) AST equals a fresh computation"""
+    import functools
+    for n in ast_nodes(ast_obj):
+        for cls in type(n).__mro__:
+            for name, member in vars(cls).items():
+                if isinstance(member, functools.cached_property) and name in getattr(n, "__dict__", {}):
+                    stored = n.__dict__[name]
+                    try:
+                        fresh = member.func(n)
+                        same = stored == fresh
+                    except Exception as e:  # noqa: BLE001
+                        same, fresh = False, "raises " + type(e).__name__
+                    ctx.count(1, "cached_property/" + name)
+                    if not same:
+                        ctx.fail("stored %s.%s differs from a fresh computation" % (type(n).__name__, name),
+                                 dict(case, stored=str(stored)[:200], fresh=str(fresh)[:200]))
+
+
+def touch_cached_properties(ast_obj):
+    """what fetch_or_create_by_xpath reads"""
+    try:
+        ast_obj._is_unambiguously_locatable
+        for path in ast_obj.location_paths:
+            for step in path.location_steps:
+                step._derived_attributes
+    except Exception:  # noqa: BLE001
+        pass
 
 
 def cache_half(ctx, n_histories, hist_len):
@@ -307,7 +360,8 @@ def cache_half(ctx, n_histories, hist_len):
         for _ in range(hist_len):
             q = ctx.rng.random()
             s = ctx.rng.choice(pool) if q < .6 else (ctx.rng.choice(names) + ctx.rng.choice(["", "[1]", "/b", "/"]))
-            op = ctx.rng.choice(["parse", "parse", "tokenize", "xpath", "evaluate", "clear"]) if q > .02 else "clear"
+            op = ctx.rng.choice(["parse", "parse", "tokenize", "xpath", "evaluate", "inspect", "create", "clear"]) \
+                if q > .02 else "clear"
             hist.append((op, s))
             try:
                 if op == "parse":
@@ -318,6 +372,10 @@ def cache_half(ctx, n_histories, hist_len):
                     ctx.rng.choice(docs).root.xpath(s)
                 elif op == "evaluate":
                     list(rparse(s).evaluate(ctx.rng.choice(docs).root, Namespaces({})))
+                elif op == "inspect":
+                    touch_cached_properties(rparse(s))
+                elif op == "create":
+                    impl.Document("<a><b/></a>").root.fetch_or_create_by_xpath(s)
                 else:
                     ctx.rng.choice([rparse, rtokenize]).cache_clear()
             except Exception:  # noqa: BLE001
@@ -353,6 +411,15 @@ def cache_half(ctx, n_histories, hist_len):
             except XPathParsingError:
                 pass
             if c_ast is not None and f_ast is not None:
+                cached_property_state(ctx, c_ast, case)
+                touch_cached_properties(f_ast)
+                touch_cached_properties(c_ast)
+                for a, b in zip(ast_nodes(c_ast), ast_nodes(f_ast)):
+                    for name in ("_is_unambiguously_locatable", "_derived_attributes", "_anders_predicates"):
+                        if name in getattr(a, "__dict__", {}) or name in getattr(b, "__dict__", {}):
+                            if a.__dict__.get(name) != b.__dict__.get(name):
+                                ctx.fail("cached property %s differs between the cached and a fresh AST" % name,
+                                         dict(case, cached=str(a.__dict__.get(name))[:200], fresh=str(b.__dict__.get(name))[:200]))
                 try:
                     if not (c_ast == f_ast):
                         ctx.fail("cached AST != fresh AST (==)", case)
@@ -361,8 +428,10 @@ def cache_half(ctx, n_histories, hist_len):
                              dict(case, exception=type(e).__name__))
                 for d in docs:
                     for node in (d.root, d.root[0]):
-                        a, b = eval_result(c_ast, node), eval_result(f_ast, node)
-                        if a != b:
+                        with impl.no_gc():
+                            a, b = eval_result(c_ast, node), eval_result(f_ast, node)
+                            same = same_results(a, b)
+                        if not same:
                             ctx.fail("cached and fresh expression evaluate differently", dict(case, cached=str(a)[:200],
                                                                                               fresh=str(b)[:200]))
         ctx.nontrivial_case(("cache", tuple(hist)))
@@ -379,7 +448,9 @@ def direct_search(ctx, n):
         ctx.count(1, "search/" + (r[0] if r[0] != "crash" else "crash:" + r[1]))
         judge(ctx, {"expression": s, "family": fam}, r)
     # resource classes (not modelled): deep nesting, long digit strings
-    for depth in (50, NESTING_MODELLED - 1, NESTING_OVERFLOW):
+    # between NESTING_MODELLED and NESTING_OVERFLOW either outcome of parse_under is allowed, a crash never is; the
+    # three shapes use one (grouping, brackets) or two (function calls) interpreter frames per nesting level
+    for depth in (50, NESTING_MODELLED - 1, 300, 400, 500, 600, 700, 800, 900, 1000, 1200, 1600, 2000, NESTING_OVERFLOW):
         for s in ("a[" + "(" * depth + "1" + ")" * depth + "]", "a" + "[b" * (depth // 2) + "]" * (depth // 2),
                   "a[" + "not(" * (depth // 2) + "1" + ")" * (depth // 2) + "]"):
             r = real_outcome(s)
@@ -433,8 +504,8 @@ def run(ctx, args):
              "bracket insertions, unknown functions / axes / node tests with argument lists, Unicode names at the borders of "
              "the name ranges, digit strings of several scripts; each compared with the Gallina model (vm_compute) on outcome "
              "class, exception type, position, message, str(e) and AST. Cache half: histories of 120 parse/tokenize/xpath/"
-             "evaluate/cache_clear calls over 3..140 distinct expressions, then cached vs fresh AST, == and evaluation on two "
-             "documents. Direct search: the same generators on the implementation alone. Non-trivial = not a short successful "
+             "evaluate/inspect/fetch_or_create/cache_clear calls over 3..140 distinct expressions, then cached vs fresh AST, ==, "
+             "stored cached_property values vs fresh computation, and evaluation on two documents. Direct search: the same generators on the implementation alone. Non-trivial = not a short successful "
              "parse; distinct by expression / history.",
         replay_open=replay_open)
 
